@@ -63,7 +63,7 @@ def chain_archives(R, n):
                     # the same output name as an earlier link, spelled differently
                     ln = R.choice(links)
                     name = R.choice([["."] + list(ln), list(ln[:-1]) + ["x", "..", ln[-1]], list(ln)])
-                ents.append({"name": name, "kind": R.choice(["file", "file", "empty"]), "tgt": []})
+                ents.append({"name": name, "kind": R.choice(["file", "file", "empty", "link"]), "tgt": []})      # (a link without target: empty stream)
                 dirs.append(name[:-1] or ["a"])
             else:
                 ents.append({"name": name, "kind": "dir", "tgt": []})
@@ -148,6 +148,11 @@ def run(tier, rep, ev):
             for tail in (["O", "keep"], ["O", "new"]):
                 archives.append([L(["x"], ["."]), L(["x", "up"], [".."]), L(["f"], ["x", "up"] + tail), dict(F(alias), **({"attrv": av} if av else {}))])
                 archives.append([L(["x"], ["."]), L(["x", "up"], [".."]), F(["f"]), L(["a", "..", "f"], ["x", "up"] + tail), dict(F(["g"]), **({"attrv": av} if av else {}))])
+    # a link member WITHOUT a target (empty stream) at a name where an earlier member left a link: created like an empty file
+    for alias in ([".", "b"], ["b"], ["x", "..", "b"]):
+        for tail in (["victim"], ["O", "keep"], ["Jx", "n"]):
+            archives.append([L(["a"], ["."]), L(["b"], ["a", ".."] + tail), {"name": alias, "kind": "link", "tgt": []}])
+            archives.append([L(["a"], ["."]), L(["b"], ["a", ".."] + tail), {"name": alias, "kind": "empty", "tgt": []}])
     archives += chain_archives(R, 1500 if tier == "quick" else 30000)
     # random longer archives
     comps = ["a", "b", "c", "..", ".", "J"]
